@@ -7,7 +7,7 @@ STARTER_NEW = "stream_dispatch::UtpStreamStarter::new"
 DISP = "socket::Dispatcher"
 
 
-@rule("C08.1", ["C08", "C12", "C11"], ["E4", "E7"], "the connection's drop guard carries exactly the key under which it sits in the stream table",
+@rule("C08.1", ["C08", "C12", "C11", "C13"], ["E4", "E7"], "the connection's drop guard carries exactly the key under which it sits in the stream table",
       "UtpStreamStarter::new builds drop_guard = DropGuardSendBeforeDeath::new(ControlRequest::Shutdown((remote, args.conn_id_recv)), &socket.control_requests); StreamArgs::new_outgoing sets "
       "(conn_id_recv, conn_id_send) = (c, c+1) and new_incoming (c+1, c) for c = header.connection_id; the callers insert the stream under (addr, header.connection_id) resp. (remote, header.connection_id + 1) "
       "with the same addr/remote and header they pass on (affine tables compared).")
